@@ -38,6 +38,16 @@ TEXT = {
                 "assumed: broadcast delivery to every connection task (channel capacity), see DESIGN.md.",
         "technique": "Lean 4 proof (invariant by induction over operation histories + loop lemmas) + differential correspondence on command histories",
     },
+    "C09": {
+        "level": "Kernel-checked for all (index, begin, length) in N^3 (so in particular all of u32^3, with begin+length computed without wrap-around) and all "
+                 "scripts of requests, choke/unchoke broadcasts and other traffic: the task's trace satisfies the monitor P09 (C09_trace) — per request either no "
+                 "piece data, or exactly one Piece with the same index and offset carrying bytes [begin, begin+length) of the piece loaded at the last consult of "
+                 "the manager, length <= PIECE_BLOCK_SIZE (= 16384 by decide), range inside the piece; the manager is consulted again after every Choke sent; no "
+                 "other input produces piece data; the model has no panic outcome and the harness reports a task panic as a violation.",
+        "note": KERNEL + "the manager's side (load only for owned pieces of an unchoked peer) is Peer::handle_request, stated as load_only_if_unchoked_and_owned "
+                "and exercised by the manager histories of C12/C14; the stored bytes are the verified ones (C01).",
+        "technique": "Lean 4 proof (trace monitor proved sound for all scripts; case characterisation of handle_request) + differential correspondence",
+    },
     "C08": {
         "level": "Kernel-checked for every script of frames (any handshake, arriving at any point of any history), broadcasts, ticks and stream ends, on "
                  "incoming and outgoing connections: the task's trace satisfies the monitor P08 (C08_trace) — own handshake carries the torrent's info-hash and "
